@@ -23,7 +23,8 @@ def df_note(pid):
     tier = "both tiers (reduced budget in quick)" if pid in _core.DF_STAGE_QUICK_LITE else "the thorough tier"
     return (f" In {tier} the check also runs the mixed-history stage (spec/DF.tla, DFTrace.tla, harness/props/df.py, notes/DF.md): "
             "one heap-with-references model of regions, meshes, subregions and fields in which the public calls of seven families "
-            "(geometry, selection, algebra, validity, updates, persistence, derivative) are mixed in one history; TLC enumerates the "
+            "(geometry, selection, algebra with numbers / products / angles, validity, updates and relabelling, persistence, derivative, integrals and means, "
+            "queries whose answer is the outcome: allclose, ==, in, is_aligned, mean as exact rationals, sampling at a cell centre) are mixed in one history; TLC enumerates the "
             "histories, each is re-executed on the library with the whole projected object graph compared after every call, and long "
             "random programs of the library are validated call by call by the same operators. Only disagreements with the clauses "
             "that come from this property's text are reported by this check.")
